@@ -374,12 +374,12 @@ def macrostep_in_consumer(ctx, rid: str) -> None:
                 continue
             n_sites += 1
             if held is None:
-                held = _flag_state(f, "_is_processing")
+                held = _flag_state(f, r.flag)
             ids = cfg_node_of(f, s.call)
             ok = bool(ids) and all(held.get(i, False) for i in ids)
             c.ob(rid, ok, f, f"call:{tgt[0].name}",
                  f"{tgt[0].name}() runs with the re-entrancy flag held" if ok else
-                 f"{tgt[0].name}() is called with _is_processing released: an action that raises/sends during it is "
+                 f"{tgt[0].name}() is called with {r.flag} released: an action that raises/sends during it is "
                  f"processed re-entrantly, inside the unfinished macrostep", s.call)
     c.floor(rid, "sync processing call sites outside processing functions", n_sites, 2)
     # ---- async
